@@ -425,7 +425,18 @@ fn op_c17_compounds(req: &Value) -> Value {
             if p == 0 {
                 p = 1;
             }
-            let x = prefixes[rng.below(prefixes.len() as u64) as usize];
+            let mut x = prefixes[rng.below(prefixes.len() as u64) as usize];
+            // Width boundaries of the two stored integers: an encoding that narrows them (i8/i16/u8)
+            // round-trips every everyday value and fails exactly here.
+            const WIDTHS: [i64; 14] = [127, 128, 129, 255, 256, 257, 32767, 32768, 32769, 65535, 65536, 65537, 2147483646, 2147483647];
+            if rng.chance(40) {
+                p = WIDTHS[rng.below(14) as usize] * if rng.chance(500) { -1 } else { 1 };
+            }
+            if rng.chance(40) {
+                // (prefixes stay well inside i32: the displayed prefix adds a per-unit bias, and no unit
+                // expression can produce a prefix beyond +-24 anyway)
+                x = WIDTHS[rng.below(12) as usize] * if rng.chance(500) { -1 } else { 1 };
+            }
             parts.push((k, p, x));
         }
 
